@@ -141,7 +141,12 @@ class Driver:
             self.trace.append('A!')
             self.probe()
             return False
-        self.model.systems.add_system(obj)
+        if self.rng.random() < 0.1:
+            from vlib import reps
+            reps.deprecated_call(self.model.systems.addSystem, obj)        # deprecated spelling of the same operation
+            self.ctx.count('deprecated_alias_calls')
+        else:
+            self.model.systems.add_system(obj)
         self.ref.append({'id': obj.id, 'obj': obj, 'prio': self.intended(obj), 'seq': self.seq})
         self.seq += 1
         self.trace.append('A')
@@ -160,6 +165,10 @@ class Driver:
         if via_cleanup:
             r['obj'].clean_up()
             self.ctx.count('clean_up')
+        elif self.rng.random() < 0.1:
+            from vlib import reps
+            reps.deprecated_call(self.model.systems.removeSystem, sid)
+            self.ctx.count('deprecated_alias_calls')
         else:
             self.model.systems.remove_system(sid)
         self.ref.remove(r)
